@@ -12,7 +12,9 @@ task is rendered alone again before and after the schedules of its case.  The
 fragments include every built-in filter in plain and rare argument forms (the
 forms that touch environment policies and other state outside the call), used by
 both tasks before and after their await points; environments carry policy values
-of their own or the process-wide defaults."""
+of their own or the process-wide defaults.  In every other case the tasks' main
+templates are loaded with different template-level globals that the shared
+(cached) libraries read."""
 from __future__ import annotations
 
 import asyncio
@@ -93,7 +95,26 @@ RULE = ("case = generated template set (import library cached per environment, w
         "when a task is inside a scoped eval-context block: schedules_with_task_suspended_inside_"
         "imported_autoescape_block counts schedules in which a task stayed suspended there while "
         "another task ran, schedules_probing_eval_context_during_such_suspension those in which "
-        "another task evaluated a probe at that time. An output difference in a fragment that runs "
+        "another task evaluated a probe at that time. TEMPLATE-LEVEL GLOBALS: in every other case of "
+        "either kind (alternating with the shard number) the main templates are loaded with "
+        "Environment.get_template(name, globals=...) and DIFFERENT template-level globals (one of "
+        "six variants over the names SITE / TG2: one main with, the other without; both with "
+        "different values; disjoint names; tasks that share a main template share its globals, in a "
+        "module-body race a single shared main is copied under a second name), and the shared "
+        "library reads those names without defining them (a macro, an exported top-level "
+        "variable): generated-template cases get 1-2 extra fragments per main drawn from: macro + "
+        "variable of the library imported at the head of the template around a g() call, a "
+        "from-import of them, an import of the library BEHIND an await point, an include WITHOUT "
+        "context of a template that imports the library, the globals read directly; in module-"
+        "body races every import of mlib.j2 is followed by [TG=macro + variable]; values are "
+        "alphanumeric so these outputs do not depend on the eval context; alone-outputs as "
+        "before (the task alone, its main loaded with its globals in a fresh environment); "
+        "schedules_importer_with_template_level_globals_starts_after_task_with_others counts "
+        "schedules in which a task with globals started after a task with other (or no) "
+        "globals had started, .._in_new_environment those in an environment that had not "
+        "imported the library yet; a difference is keyed interference:<fragment label> resp. "
+        "interference:<module-race label>:template-level-globals-of-the-importer. "
+        "An output difference in a fragment that runs "
         "library code in such a schedule gets the mechanism key interference:eval-context-of-cached-"
         "module-shared-between-tasks:suspended-in=<construct>, any other difference "
         "interference:<fragment label>; after such a schedule (and after any violation) the "
@@ -150,6 +171,12 @@ ASSUMPTIONS = [
     "keyed by the rendering task, not by asyncio.current_task())",
     "zone() / ectx() are harness globals called by the generated library: zone() only records, "
     "ectx() returns 'A1'/'A0' from eval_ctx.autoescape (documented pass_eval_context use)",
+    "template-level globals: a template imported without context sees the importing template's "
+    "globals (docs/api.rst 'The Global Namespace': globals 'are also available to templates that "
+    "are imported or included without context'; CHANGES 3.0.x: imported macros have access to the "
+    "current template globals); a template included without context is evaluated with its own "
+    "globals only; globals are per main template and never changed after loading; two names "
+    "(SITE, TG2), string values",
     "module-body races: the gated environment global returns a value that does not depend on the "
     "calling task and the library keeps no mutable state, because the module of an import "
     "without context is cached per environment by documented design; which task evaluates the "
@@ -176,6 +203,29 @@ FF_FLOORS_THOROUGH = {
     "cases_with_environment_specific_policy_values": 70, "cases_with_default_policy_objects": 25,
     "alone_renders_before-the-schedules": 200,
     **{"cases_with_rare_form_between_plain_uses_of_other_task:" + f: 12 for f in FF.WITH_RARE},
+}
+_TGS = "schedules_importer_with_template_level_globals_starts_after_task_with_others"
+TG_FLOORS_QUICK = {
+    "cases_with_template_level_globals": 4,
+    "cases_tasks_loaded_with_different_template_level_globals": 4,
+    "cases_template_level_globals_in_one_task_none_in_another": 3,
+    "modrace_cases_with_template_level_globals": 3,
+    "modrace_cases_tasks_loaded_with_different_template_level_globals": 3,
+    "schedules_of_tasks_with_template_level_globals": 1000, _TGS: 700,
+    _TGS + "_in_new_environment": 50,
+    "modrace_schedules_of_tasks_with_template_level_globals": 500, "modrace_" + _TGS: 300,
+    **{"fragment:" + lab: 2 for lab in GEN.TG_LABELS},
+}
+TG_FLOORS_THOROUGH = {
+    "cases_with_template_level_globals": 16,
+    "cases_tasks_loaded_with_different_template_level_globals": 16,
+    "cases_template_level_globals_in_one_task_none_in_another": 10,
+    "modrace_cases_with_template_level_globals": 15,
+    "modrace_cases_tasks_loaded_with_different_template_level_globals": 15,
+    "schedules_of_tasks_with_template_level_globals": 38000, _TGS: 30000,
+    _TGS + "_in_new_environment": 1400,
+    "modrace_schedules_of_tasks_with_template_level_globals": 26000, "modrace_" + _TGS: 19000,
+    **{"fragment:" + lab: 9 for lab in GEN.TG_LABELS},
 }
 FLOORS = {
     "quick": {"evaluations": 3000, "distinct": 2500,
@@ -205,6 +255,7 @@ FLOORS = {
                            "modrace_cases": 6, "modrace_schedules": 800,
                            "modrace_import_while_body_suspended": 500,
                            "modrace_cases_all_orders_enumerated": 3,
+                           **TG_FLOORS_QUICK,
                            **FF_FLOORS_QUICK}},
     "thorough": {"evaluations": 120000, "distinct": 120000,
                  "counters": {"schedules": 120000, "task_outputs_compared": 300000, "cases": 70,
@@ -233,6 +284,7 @@ FLOORS = {
                               "modrace_cases": 90, "modrace_schedules": 100000,
                               "modrace_import_while_body_suspended": 80000,
                               "modrace_cases_all_orders_enumerated": 70,
+                              **TG_FLOORS_THOROUGH,
                               **FF_FLOORS_THOROUGH}},
 }
 
@@ -397,6 +449,31 @@ class TaskData:
         self.watch.kind_events.append((self.tid, family, aw, kind))
 
 
+def load_main(env, spec):
+    """The task's main template, loaded with the task's template-level globals (tasks
+    that share a main template share them)."""
+    tg = spec.get("tglobals")
+    return env.get_template(spec["main"], globals=dict(tg) if tg else None)
+
+
+def tg_key(spec):
+    return tuple(sorted((spec.get("tglobals") or {}).items()))
+
+
+def late_globals_importers(tasks, order):
+    """Tasks WITH template-level globals that start (their first gate release; the
+    import of the shared library follows) after a task with other template-level
+    globals (or none) has started."""
+    seen, out = [], []
+    for tid in order:
+        if tid in seen:
+            continue
+        if tg_key(tasks[tid]) and any(tg_key(tasks[o]) != tg_key(tasks[tid]) for o in seen):
+            out.append(tid)
+        seen.append(tid)
+    return out
+
+
 def solo3(loop, env, spec):
     """-> (output, number of g() calls, their tags)"""
     async def nogate():
@@ -404,7 +481,7 @@ def solo3(loop, env, spec):
 
     env.vt_holder.watch = Watch()
     td = TaskData(spec, (), nogate, watch=env.vt_holder.watch)
-    out = loop.run_until_complete(env.get_template(spec["main"]).render_async(**td.vars()))
+    out = loop.run_until_complete(load_main(env, spec).render_async(**td.vars()))
     return out, td.calls, td.tags
 
 
@@ -436,7 +513,7 @@ async def run_schedule(loop, env, tasks, gates, order):
         await gate()
         watch.ticks += 1
         td = TaskData(tasks[tid], gates[tid], gate, shared_init, watch, tid)
-        return await env.get_template(tasks[tid]["main"]).render_async(**td.vars())
+        return await load_main(env, tasks[tid]).render_async(**td.vars())
 
     ts = [loop.create_task(runner(i)) for i in range(n)]
 
@@ -618,6 +695,13 @@ def judge_schedule(ctx, case, gates, ref_out, order, sm, where):
                       + "_in_other_task")
     if sm["dev"]:
         ctx.count("schedules_with_gate_count_deviation")
+    if any(t.get("tglobals") for t in tasks):
+        ctx.count("schedules_of_tasks_with_template_level_globals")
+        if late_globals_importers(tasks, order):
+            ctx.count("schedules_importer_with_template_level_globals_starts_after_task_with_others")
+            if where != "warm-env":
+                ctx.count("schedules_importer_with_template_level_globals_starts_after_task_with_others"
+                          "_in_new_environment")
     if switches(order) >= 2:
         ctx.dist((core.h8([case["tpls"], case["tasks"], gates]), list(order), where))
     ok = True
@@ -824,6 +908,12 @@ def run_case(ctx, case, quick, rng, loop, first=0, pristine=False):
         ctx.count("cases_pairing_rare_filter_forms_in_one_task_with_plain_uses_around_a_gate_in_another")
     ctx.count("cases_with_environment_specific_policy_values" if case.get("policies")
               else "cases_with_default_policy_objects")
+    if any(t.get("tglobals") for t in tasks):
+        ctx.count("cases_with_template_level_globals")
+        if len({tg_key(t) for t in tasks}) > 1:
+            ctx.count("cases_tasks_loaded_with_different_template_level_globals")
+        if any(not t.get("tglobals") for t in tasks):
+            ctx.count("cases_template_level_globals_in_one_task_none_in_another")
     fams = [kind_families(x) for x in srcs]
     if any(fams):
         ctx.count("cases_with_awaitable_kinds_fragment")
@@ -943,7 +1033,7 @@ async def run_modrace(loop, case, choices):
             await watch.gated(tid, lambda: gate(tid))
             return "%s.%s" % (spec["name"], tag)
 
-        return await env.get_template(spec["main"]).render_async(name=spec["name"], g=g)
+        return await load_main(env, spec).render_async(name=spec["name"], g=g)
 
     ts = [loop.create_task(runner(i)) for i in range(n)]
 
@@ -996,6 +1086,9 @@ def modrace_solo(loop, case):
     return outs
 
 
+_TG = re.compile(r"\[TG=[^\]]*\]")
+
+
 def check_modrace(ctx, case, loop, solo_out, choices):
     """-> (factors, trace) of the executed schedule, or None"""
     try:
@@ -1019,6 +1112,11 @@ def check_modrace(ctx, case, loop, solo_out, choices):
         ctx.count("modrace_body_evaluated_by_several_tasks")
     if switches(trace) >= 2:
         ctx.dist(("modrace", core.h8([case["tpls"], case["tasks"]]), list(trace)))
+    if any(t.get("tglobals") for t in tasks):
+        ctx.count("modrace_schedules_of_tasks_with_template_level_globals")
+        if late_globals_importers(tasks, trace):
+            ctx.count("modrace_schedules_importer_with_template_level_globals_starts_after_task_"
+                      "with_others")
     rcase = {"kind": "modrace", "case": case, "choices": list(picks), "trace": list(trace)}
     for tid, r in enumerate(res):
         ctx.count("task_outputs_compared")
@@ -1034,8 +1132,15 @@ def check_modrace(ctx, case, loop, solo_out, choices):
                              case["tpls"]["mlib.j2"], src), rcase)
         elif r != solo_out[tid][0]:
             # every main template of these cases runs code of the cached library
-            ctx.violation(shared_evalctx_key(watch) if watch.overlap
-                          else "interference:%s:output-differs" % lab,
+            if _TG.findall(r) != _TG.findall(solo_out[tid][0]):
+                # what the library rendered from the importer's template-level globals
+                # (alphanumeric values, independent of the eval context)
+                key = "interference:%s:template-level-globals-of-the-importer" % lab
+            elif watch.overlap:
+                key = shared_evalctx_key(watch)
+            else:
+                key = "interference:%s:output-differs" % lab
+            ctx.violation(key,
                           "fresh environment, task %d (%s, name=%r) under gate-release order %s "
                           "produced %r, alone %r; mlib.j2 = %r; main = %r"
                           % (tid, tasks[tid]["main"], tasks[tid]["name"], list(trace), r[:300],
@@ -1086,6 +1191,10 @@ def _run_modcase(ctx, case, quick, rng, loop, solo_out):
     cap = 120 if quick else 3000
     ctx.count("modrace_cases")
     ctx.count("modrace_cases_%d_tasks" % len(case["tasks"]))
+    if any(t.get("tglobals") for t in case["tasks"]):
+        ctx.count("modrace_cases_with_template_level_globals")
+        if len({tg_key(t) for t in case["tasks"]}) > 1:
+            ctx.count("modrace_cases_tasks_loaded_with_different_template_level_globals")
     if "mlib2.j2" in case["tpls"]:
         ctx.count("modrace_cases_nested_module")
     for t in case["tasks"]:
@@ -1146,8 +1255,12 @@ def run(ctx):
         i = 0
         nmax = 400 if quick else 20000
         while ctx.more(i, nmax, floor=2):
+            # every other case of either kind (alternating with the shard number) loads its
+            # main templates with different TEMPLATE-LEVEL GLOBALS that the shared library reads
+            with_tg = (i // 2 + ctx.shard) % 2 == (i % 2)
             if i % 2 == 1:
-                run_modcase(ctx, GEN.gen_modcase(rng), quick, ctx.rng("case%d" % i), loop)
+                run_modcase(ctx, GEN.gen_modcase(rng, ctx.rng("tg%d" % i) if with_tg else None),
+                            quick, ctx.rng("case%d" % i), loop)
             else:
                 # of the generated-template cases every other one pairs a task that awaits
                 # inside an autoescape block of the cached library with a task that probes
@@ -1159,7 +1272,8 @@ def run(ctx):
                 # this machine to start more of them); the shard number decides which of
                 # the two tasks goes first
                 case = GEN.gen_case(rng, force_evalctx=(i % 4 == 2), force_kinds=(i % 6 == 0),
-                                    all_families=(i == 0), rng2=ctx.rng("policies%d" % i))
+                                    all_families=(i == 0), rng2=ctx.rng("policies%d" % i),
+                                    rng_tg=ctx.rng("tg%d" % i) if with_tg else None)
                 run_case(ctx, case, quick, ctx.rng("case%d" % i), loop,
                          first=ctx.shard + i // 2, pristine=(i == 0))
                 # ... followed by a small case that pairs a task using rare argument
